@@ -103,6 +103,47 @@ func describeD(v ssa.Value, d int) string {
 	return "_"
 }
 
+// scalarizable: a non-escaping local of struct/scalar type (arrays stay in memory: they are indexed dynamically)
+func (fr *Frame) scalarizable(x *ssa.Alloc) bool {
+	if allocEscapes(x) {
+		return false
+	}
+	elem := x.Type().(*types.Pointer).Elem()
+	if _, isArr := underlying(elem).(*types.Array); isArr {
+		return false
+	}
+	// every derived address must be a FieldAddr chain (no IndexAddr into nested arrays)
+	var ok func(v ssa.Value, d int) bool
+	ok = func(v ssa.Value, d int) bool {
+		if d > 8 {
+			return false
+		}
+		refs := v.Referrers()
+		if refs == nil {
+			return false
+		}
+		for _, r := range *refs {
+			switch y := r.(type) {
+			case *ssa.IndexAddr:
+				return false
+			case *ssa.FieldAddr:
+				if !ok(y, d+1) {
+					return false
+				}
+			case *ssa.MakeClosure:
+				fn := y.Fn.(*ssa.Function)
+				for i, b := range y.Bindings {
+					if b == v && i < len(fn.FreeVars) && !ok(fn.FreeVars[i], d+1) {
+						return false
+					}
+				}
+			}
+		}
+		return true
+	}
+	return ok(x, 0)
+}
+
 // isNonNil: syntactically non-nil address values (allocations, globals, interior addresses, the receiver)
 func (fr *Frame) isNonNil(v ssa.Value) bool {
 	switch x := v.(type) {
@@ -169,6 +210,20 @@ func (fr *Frame) execInstr(ins ssa.Instruction) {
 		return
 	case *ssa.Alloc:
 		elem := x.Type().(*types.Pointer).Elem()
+		if fr.scalarizable(x) {
+			frameCounter++
+			key := fmt.Sprintf("$L|%s|%s%d", fr.prefix, sanitize(x.Name()), frameCounter)
+			fr.localKey[x] = key
+			keys, _ := fr.localLeafKeys(localRef{key: key}, elem)
+			z := zeroVal(elem)
+			for i, k := range keys {
+				st.v[k] = z.C[i]
+			}
+			a := fr.alloc(st, cellsOf(elem))
+			fr.vals[x] = Val{C: []string{a}}
+			fr.locals = append(fr.locals, localCell{ins: x, addr: a})
+			return
+		}
 		a := fr.alloc(st, cellsOf(elem))
 		if _, big := underlying(elem).(*types.Array); !big || len(layoutOf(elem).leaves) > 1 || cellsOf(elem) <= maxInlineArray {
 			fr.store(st, a, elem, zeroVal(elem))
